@@ -22,7 +22,7 @@ import asyncstdlib as a  # noqa: E402
 
 class Tool:
     def __init__(self, name, kind, nsrc, make_a, make_s, roles=(), optional_roles=(),
-                 profiles=("item",), infinite=False, callsrc=False, outer=False,
+                 profiles=("item", "truthy"), infinite=False, callsrc=False, outer=False,
                  multi_out=False, window=0, streaming=True):
         self.name = name
         self.kind = kind  # "iter" | "agg"
@@ -176,7 +176,7 @@ _reg(Tool("zip_longest", "iter", (0, 4),
 _reg(Tool("merge", "iter", (0, 4),
           lambda S, F, P, V: a.merge(*S, key=F.get("key"), reverse=P["reverse"]),
           lambda S, F, P, V: heapq.merge(*S, key=F.get("key"), reverse=P["reverse"]),
-          optional_roles=(("key", "table"),)))
+          optional_roles=(("key", "table"),), profiles=(I,)))
 
 # ---- aggregations ---------------------------------------------------------
 
